@@ -308,6 +308,11 @@ class Program:
         found = [c for c in self.all_classes() if c.name == name]
         return found[0] if len(found) == 1 else None
 
+    def find_function(self, name):
+        """Qualified name of the module-level function with this simple name (unique in the package), else None."""
+        found = [f"{m.name}.{name}" for m in self.modules.values() if name in m.functions]
+        return found[0] if len(found) == 1 else None
+
     def func(self, qual):
         mod, name = qual.rsplit(".", 1)
         if mod not in self.modules or name not in self.modules[mod].functions:
@@ -763,6 +768,16 @@ class Summary:
         return self.module.path
 
 
+class _Bind(ast.stmt):
+    """Synthetic statement of an unrolled loop: bind the loop target to one item of the display."""
+    _fields = ()
+
+    def __init__(self, target, term, like):
+        super().__init__()
+        self.target, self.term = target, term
+        ast.copy_location(self, like)
+
+
 class Summariser:
     """Summarises one function (with same-class helpers inlined) into terms + an effect tree."""
 
@@ -955,6 +970,23 @@ class Summariser:
                 self.env = self.merge(cond, env_t, env_e)
                 self.fields = self.merge(cond, f_t, f_e, field=True)
                 continue
+            if isinstance(st, ast.For) and not st.orelse and isinstance(st.iter, (ast.Name, ast.Attribute, ast.Tuple, ast.List)) \
+                    and any(isinstance(n, ast.Return) for b in st.body for n in ast.walk(b)) \
+                    and not any(isinstance(n, (ast.Break, ast.Continue, ast.Yield, ast.YieldFrom))
+                                for b in st.body for n in ast.walk(b)):
+                # a search loop over a short display (`for k, v in TABLE: if test(k): return f(v)`): the body once
+                # per item, followed by the rest of the block -- early returns are handled like any other
+                probe = []
+                it = self.expr(st.iter, probe)
+                items = self._display_items(it, isinstance(st.iter, ast.List)) if not probe else None
+                if items is not None and len(items) <= 4:
+                    stmts = []
+                    for item in items:
+                        stmts.append(_Bind(st.target, item, st))
+                        stmts.extend(st.body)
+                    ev, term, ret = self.block(stmts + list(rest))
+                    events.extend(ev)
+                    return events, term, ret
             if isinstance(st, ast.Return):
                 val = self.expr(st.value, events) if st.value is not None else ("const", None)
                 events.append(Return(val, st.lineno))
@@ -1007,6 +1039,9 @@ class Summariser:
 
     # -- statements ------------------------------------------------------------------------------
     def stmt(self, st, events):
+        if isinstance(st, _Bind):
+            self.bind_target(st.target, st.term)
+            return
         if isinstance(st, ast.Expr):
             if isinstance(st.value, ast.Constant):
                 return
@@ -1547,6 +1582,15 @@ class Summariser:
             key, val = None, ("flat", inner)
         if ev:
             events.append(Loop(lid, it, ast.unparse(g.target), ev, {}, e.lineno, True))
+        if it[0] == "tuple" and len(it) == 2 and 1 <= len(it[1]) <= 4 and not conds and val[0] != "flat" and \
+                kind in ("dict", "list", "set"):
+            # a comprehension over a short tuple display is the display of its instances
+            el = ("elem", lid)
+            if kind == "dict":
+                items = tuple(("kv", subst(key, {el: x}), subst(val, {el: x})) for x in it[1])
+            else:
+                items = tuple(subst(val, {el: x}) for x in it[1])
+            return ("new", self.site(e), kind, items)
         return norm_comp(("comp", kind, lid, it, key, val, conds))
 
     # -- calls -----------------------------------------------------------------------------------
@@ -1569,6 +1613,16 @@ class Summariser:
             res = ("res", self.site(e), f"super.{f.attr}", args, kwargs)
             events.append(Call(f"super.{f.attr}", None, ("self",), args, kwargs, res, line))
             return res
+        # cls(...) inside a classmethod: an instance of the class
+        if isinstance(f, ast.Name) and self.is_classmethod and f.id == self.self_name and f.id not in self.env \
+                and self.cls is not None:
+            return self._construct(self.cls, args, kwargs, events, e)
+        # cls.m(...) inside a classmethod
+        if isinstance(f, ast.Attribute) and isinstance(f.value, ast.Name) and self.is_classmethod and \
+                f.value.id == self.self_name and f.value.id not in self.env and self.cls is not None:
+            c, m = self.prog.find_method(self.cls, f.attr)
+            if m is not None and any(ast.unparse(d) in ("staticmethod", "classmethod") for d in m.decorator_list):
+                return self.inline(c, m, args, dict(kwargs), events, e)
         # self(...)
         if self.is_self(f) and self.cls is not None:
             c, m = self.prog.find_method(self.cls, "__call__")
@@ -1649,7 +1703,7 @@ class Summariser:
             rc = self.prog.resolve_name(self.module, f.value.id)
             if rc and rc[0] == "class":
                 c, m = self.prog.find_method(rc[1], f.attr)
-                if m is not None and any(ast.unparse(d) == "staticmethod" for d in m.decorator_list):
+                if m is not None and any(ast.unparse(d) in ("staticmethod", "classmethod") for d in m.decorator_list):
                     saved = self.cls
                     try:
                         if self.cls is None or rc[1] not in self.prog.mro(self.cls):
@@ -2145,7 +2199,7 @@ class Summariser:
         events.append(Inlined(f"{c.name}.{m.name}", ev, node.lineno, c, m, dict(params), rv))
         return rv
 
-    NO_INLINE = ("validate_model_function", "validate_loss_function", "_get_loss_function_from_river_metric")
+    NO_INLINE = ("validate_model_function", "validate_loss_function")
 
     def _can_inline_function(self, m, node):
         """Package-level helper functions are inlined unless recursive, generators, or one of the
